@@ -3,6 +3,7 @@ package main
 import (
 	"bytes"
 	"fmt"
+	"io"
 	"math/big"
 	"strconv"
 
@@ -160,8 +161,58 @@ func init() {
 		if err != nil && len(cls) > 5 && cls[:5] == "PANIC" {
 			fs = append(fs, Failure{Kind: "oracle", Key: "bx_decode-panic", Desc: cls})
 		}
+		// the streaming decoder agrees with the one-shot form under every read size
+		// (every longer string; one in eight of the exhaustively enumerated short ones: each
+		// decoder allocates its 600 KB of buffers)
+		sum := 0
+		for _, b := range s {
+			sum += int(b)
+		}
+		if len(s) > 3 || sum%8 == 0 {
+			fs = append(fs, bxStreamAgrees(e, s, out, err)...)
+		}
 		return
 	}, trivial: func(c Case) bool { return c.A["s"] == "-" }}
+
+	// large inputs (more than one internal buffer of 8192 blocks) through the streaming forms,
+	// with caller buffers up to the whole message; oracle only (round trip and agreement)
+	evaluators["bx_stream_big"] = evaluator{run: func(h *H, c Case) (fs []Failure) {
+		e := encByName(c.A["enc"])
+		var n int
+		fmt.Sscan(c.A["n"], &n)
+		r := &SplitMix{s: 5}
+		for _, b := range unhx(c.A["seed"]) {
+			r.s = r.s*131 + uint64(b)
+		}
+		data := r.Bytes(n)
+		want := e.enc.EncodeToString(data)
+		// streaming encoder with the given write size
+		var ws int
+		fmt.Sscan(c.A["w"], &ws)
+		var buf bytes.Buffer
+		w := basex.NewEncoder(e.enc, &buf)
+		for off := 0; off < len(data); off += ws {
+			end := off + ws
+			if end > len(data) {
+				end = len(data)
+			}
+			if _, err := w.Write(data[off:end]); err != nil {
+				fs = append(fs, Failure{Kind: "oracle", Key: "bx_stream-encode-error", Desc: err.Error()})
+			}
+		}
+		w.Close()
+		if buf.String() != want {
+			fs = append(fs, Failure{Kind: "oracle", Key: "bx_stream-encode-differs", Desc: fmt.Sprintf("streaming encoder (writes of %d) differs from EncodeToString on %d bytes", ws, n)})
+		}
+		if c.A["corrupt"] == "1" {
+			bs := []byte(want)
+			bs = append(bs, e.alphabet[len(e.alphabet)-1], e.alphabet[len(e.alphabet)-1])
+			want = string(bs)
+		}
+		_, oneErr := e.enc.DecodeString(want)
+		fs = append(fs, bxStreamAgrees(e, []byte(want), data, oneErr)...)
+		return
+	}}
 
 	evaluators["bx_lens"] = evaluator{run: func(h *H, c Case) (fs []Failure) {
 		e := encByName(c.A["enc"])
@@ -200,6 +251,15 @@ func init() {
 
 func genC10(h *H) {
 	thorough := h.tier == "thorough"
+	for _, en := range []string{"b62", "b62s"} {
+		for i, n := range []int{262144, 300000, 262144 + 32, 600001} {
+			if !thorough && i > 1 {
+				continue
+			}
+			h.tag("big-stream")
+			h.Run(Case{Op: "bx_stream_big", A: map[string]string{"enc": en, "n": strconv.Itoa(n), "w": strconv.Itoa([]int{1000, 262144, 77, 300000}[i]), "seed": hx(h.rng.Bytes(4)), "corrupt": strconv.Itoa(i % 2)}})
+		}
+	}
 	for _, e := range encs {
 		// length helpers, exhaustive over the domain the code evaluates the float formulas on (and beyond)
 		for n := 0; n <= 4*e.obl()+1; n++ {
@@ -305,4 +365,53 @@ func genC10(h *H) {
 	}
 	h.res.Exhaustive = false
 	h.res.ExhNote = "exhaustive sub-domains: length helpers for every n in 0..4*blocklen+1 (all four encodings); all 1-byte blocks; all strings up to length 2 (quick) / 3 (thorough) over alphabet+foreign; 2-byte blocks exhaustive in thorough"
+}
+
+// bxStreamAgrees reads s through basex.NewDecoder with several caller buffer sizes and
+// compares with the one-shot result (out, err): success iff success, same bytes; on a
+// one-shot error the stream must end with a non-EOF error (never a clean end).
+func bxStreamAgrees(e *encInfo, s, out []byte, oneErr error) (fs []Failure) {
+	sizes := []int{1, 5, 33, 0}
+	if len(s) > 100000 {
+		sizes = []int{4096, 200000, 262144, 400000, 0}
+	}
+	for _, sz := range sizes {
+		var got []byte
+		var err error
+		func() {
+			defer func() {
+				if r := recover(); r != nil {
+					err = fmt.Errorf("PANIC: %v", r)
+				}
+			}()
+			d := basex.NewDecoder(e.enc, bytes.NewReader(s))
+			if sz == 0 {
+				got, err = io.ReadAll(d)
+				return
+			}
+			p := make([]byte, sz)
+			for it := 0; it < 10000000; it++ {
+				n, e2 := d.Read(p)
+				got = append(got, p[:n]...)
+				if e2 == io.EOF {
+					return
+				}
+				if e2 != nil {
+					err = e2
+					return
+				}
+			}
+			err = fmt.Errorf("decoder does not terminate")
+		}()
+		switch {
+		case oneErr == nil && (err != nil || !bytes.Equal(got, out)):
+			fs = append(fs, Failure{Kind: "oracle", Key: "bx_stream-decode-differs", Desc: fmt.Sprintf("read size %d: streaming decoder gives %d bytes, err %v; DecodeString gives %d bytes", sz, len(got), err, len(out))})
+		case oneErr != nil && err == nil:
+			fs = append(fs, Failure{Kind: "oracle", Key: "bx_stream-decode-clean-end-on-bad-input", Desc: fmt.Sprintf("read size %d: streaming decoder ends cleanly after %d bytes on input DecodeString rejects (%v)", sz, len(got), oneErr)})
+		}
+		if len(fs) > 0 {
+			return
+		}
+	}
+	return
 }
